@@ -171,6 +171,17 @@ bool Symmetrizer::checkSymmetry(const Operator &in)
         if (!OperatorPresets::n(i).commutes(*OP1)) return false;
     }
 
+    // Check that OP1 changes by a state-independent amount under every c^+_i: [OP1, c^+_i] = q_i c^+_i.
+    // Otherwise c_i, c^+_i do not map all states of a block into one block
+    FockState vacuum(IndexSize);
+    for(ParticleIndex i = 0; i < IndexSize; ++i) {
+        Operator cdag = OperatorPresets::c_dag(i);
+        Operator comm = OP1->getCommutator(cdag);
+        FockState occupied(vacuum);
+        occupied[i] = 1;
+        if (!(comm == cdag*comm.getMatrixElement(occupied,vacuum))) return false;
+    }
+
     Operations.push_back(OP1);
     NSymmetries++;
     return true;
